@@ -4,10 +4,7 @@ import json, os, sys, importlib, glob
 HERE = os.path.dirname(os.path.abspath(__file__))
 sys.path.insert(0, os.path.join(HERE, "lib")); sys.path.insert(0, HERE)
 
-NOT_APPLICABLE = {
- "C19": "dump/read/convert round trip through the file system, pointer patching across fwrite/mmap, whole-graph reachability "
-        "and chronological replay: no per-call contract within CBMC's reach states or decides it (DESIGN §4 C19)",
-}
+NOT_APPLICABLE = {}      # every listed property has a check now (C19: partly decided, level "other", see DESIGN 4 C19)
 PENDING = "check not built yet in this round (see DESIGN.md §9 order of work)"
 
 def main():
